@@ -1,5 +1,6 @@
 import Gp.Go.Basic
 import Gp.Gen.Ip6
+import Gp.Model.Flow
 /-
   Model of the DECODE half of /repo/layers/ip6.go (engine `lip6`), core Lean only.
 
@@ -19,7 +20,7 @@ import Gp.Gen.Ip6
   * the layer state is returned on the error paths too (decodeIPv6 adds the layer even then).
 
   The constants `hopByHopOptionJumbogram`, `maxPayloadLength`, `ipProtocolIPv6HopByHop`,
-  `maxEndpointSize` are regenerated from the source (Gp/Gen/Ip6.lean).
+  are regenerated from the source (Gp/Gen/Ip6.lean); flows are the shared model Gp/Model/Flow.lean.
 -/
 namespace Gp.Ip6
 open Gp Gp.Gen.Ip6
@@ -491,24 +492,13 @@ def decodeFragmentFn (v : View) : List Ev × Bool × Res Unit :=
   | (some f, tr, .ok ()) => ([Ev.addFragment f, Ev.next .fragment], tr, .ok ())
   | (_, tr, res) => ([], tr, res)
 
-/-! ## Flows (flows.go NewFlow applied by (*IPv6).NetworkFlow) -/
+/-! ## Flows: (*IPv6).NetworkFlow = gopacket.NewFlow(EndpointIPv6, SrcIP, DstIP)
 
-structure Flow where
-  typ : Nat
-  src : Bytes
-  dst : Bytes
-  deriving Repr, DecidableEq
+  `Gp.Flow.newFlow` is the shared model of flows.go (explicit panic above MaxEndpointSize). -/
 
-def endpointIPv6 : Nat := 2
+def endpointIPv6 : Int := 2
 
-/-- gopacket.NewFlow: explicit panic above MaxEndpointSize. -/
-def newFlow (t : Nat) (src dst : Bytes) : Res Flow :=
-  if src.length > maxEndpointSize ∨ dst.length > maxEndpointSize then .panic .explicit
-  else .ok { typ := t, src := src, dst := dst }
-
-def Flow.reverse (f : Flow) : Flow := { typ := f.typ, src := f.dst, dst := f.src }
-
-def IPv6.networkFlow (l : IPv6) : Res Flow := newFlow endpointIPv6 l.srcIP l.dstIP
+def IPv6.networkFlow (l : IPv6) : Res Gp.Flow.Flow := Gp.Flow.newFlow endpointIPv6 l.srcIP l.dstIP
 
 /-! ## The assignment's prescribed entry points -/
 
